@@ -59,7 +59,7 @@ def _kernels(env):
     return (lambda a, b: vlm.seg_textbook(xp, a, b)), (lambda u, r: vlm.semi_textbook(xp, u, r))
 
 
-@job("c05.reference", ("C05",), cfgs=[dict(c, rotational=r) for c in CF for r in (False, True) if not (r and c.get("nsurf", 1) == 3)],
+@job("c05.reference", ("C05", "C04", "C07", "C19"), cfgs=[dict(c, rotational=r) for c in CF for r in (False, True) if not (r and c.get("nsurf", 1) == 3)],
      ranges=RG, cost=20)
 def reference(env, rotational, **cfg):
     xp = env.xp
@@ -89,30 +89,30 @@ def reference(env, rotational, **cfg):
         for i in range(m.shape[0] - 1):
             for j in range(m.shape[1] - 1):
                 d = xp.cross(m[i, j + 1] - m[i + 1, j], m[i, j] - m[i + 1, j + 1])
-                env.eq("C05", "panel normal is parallel to the cross product of the panel diagonals [%s %d,%d]" % (s["name"], i, j),
+                env.eq("C05,C04,C07,C19", "panel normal is parallel to the cross product of the panel diagonals [%s %d,%d]" % (s["name"], i, j),
                        xp.cross(normals[k], d), 0 * d)
-                env.eq("C05", "panel normal has unit length [%s %d,%d]" % (s["name"], i, j), (normals[k] * normals[k]).sum(), 1)
+                env.eq("C05,C04,C07,C19", "panel normal has unit length [%s %d,%d]" % (s["name"], i, j), (normals[k] * normals[k]).sum(), 1)
                 k += 1
     A, b = vlm.tangency_system(xp, ref, normals)
     if env.sym:
         rec = g.solves[0]
         As = rec["A"].T if rec["trans"] else rec["A"]
-        env.eq("C05", "tangency: the solved system matrix is (induction of every ring at every 3/4-chord point) . normal",
+        env.eq("C05,C04,C07,C19", "tangency: the solved system matrix is (induction of every ring at every 3/4-chord point) . normal",
                As, np.array(A, dtype=object))
-        env.eq("C05", "tangency: the right-hand side is -(free stream + rigid rotation) . normal", np.asarray(rec["b"], dtype=object).reshape(-1),
+        env.eq("C05,C04,C07,C19", "tangency: the right-hand side is -(free stream + rigid rotation) . normal", np.asarray(rec["b"], dtype=object).reshape(-1),
                np.array(b, dtype=object))
         gamma = np.asarray(rec["x"], dtype=object).reshape(-1)
         env.assumptions.add("non-singular AIC matrix (uniqueness of the circulations)")
     else:
         gamma = np.asarray(g.get(vals, "ap.circulations")).reshape(-1)
         res = np.array(A, dtype=float).dot(gamma) - np.array(b, dtype=float)
-        env.eq("C05", "tangency: the solved system matrix is (induction of every ring at every 3/4-chord point) . normal", res, 0 * res)
+        env.eq("C05,C04,C07,C19", "tangency: the solved system matrix is (induction of every ring at every 3/4-chord point) . normal", res, 0 * res)
     F, gh = vlm.panel_forces(xp, ref, specs, gamma, rho)
     k = 0
     for s in surfs:
         f = np.asarray(g.get(vals, "ap.aero_states.%s_sec_forces" % s["name"])).reshape(-1, 3)
         for q in range(f.shape[0]):
-            env.eq("C05", "panel force == rho * horseshoe circulation * (onset + induced velocity at the 1/4-chord point) x bound vector [%s %d]" % (s["name"], q),
+            env.eq("C05,C04,C07,C19", "panel force == rho * horseshoe circulation * (onset + induced velocity at the 1/4-chord point) x bound vector [%s %d]" % (s["name"], q),
                    f[q], F[k])
             k += 1
 
